@@ -75,7 +75,7 @@ def _root_.Ddo.C10.DSolverCfg.kdprocess (dv : DSolverCfg S K) (st : SeqSt S) (c0
                 let st2 := st1.updateBest (toOut cX.2.1)
                 let d2 := cX.2.2.2.store
                 if cX.2.1.isExact then some ⟨st2, c2, d2⟩
-                else some ⟨st2.enqueue dv.sv.dedup N.ub cX.2.1.cutset, c2, d2⟩
+                else some ⟨st2.enqueue dv.sv.dedup cX.2.1.cutset, c2, d2⟩
 
 /-- one turn of the loop of `maximize`, `N` being the popped node and `rest` what is left in the fringe -/
 def _root_.Ddo.C10.DSolverCfg.kdturn (dv : DSolverCfg S K) (s : KDSt S K) (N : SubP S) (rest : List (SubP S)) :
